@@ -3,6 +3,7 @@ modeldriver — runs the executable model of the code on one operation per line.
 -/
 import Switcher.Model.Wire
 import Switcher.Model.Tools
+import Switcher.Model.Device
 open Spec Wire Model
 
 def showPyText : Py (List Char) → String
@@ -14,6 +15,14 @@ def drive : List String → String
     match text? p with
     | some cs => showPyText (sign cs)
     | none => "bad-arg"
+  | ["accepts", cls, ty] =>
+    match accepts cls ty with
+    | some true => "1" | some false => "0" | none => "none"
+  | ["ports", ty] =>
+    match categoryOfType ty with
+    | some c => s!"{(protocolOfType ty).getD 0} {(udpPort c).getD 0} {(tcpPort c).getD 0}"
+    | none => "none"
+  | ["codes"] => ",".intercalate ((Gen.deviceTypes.map (·.2.2.1)).mergeSort (· ≤ ·))
   | _ => "bad-op"
 
 def main : IO Unit := do Wire.loop (← IO.getStdin) (← IO.getStdout) drive
